@@ -132,11 +132,11 @@ op_enc_cek_io(json_t *args)
         ok = ok && io->done(io);
     }
     hx_tape_clear();
+    if (ok && json_object_set_new(jwe, "ciphertext", jose_b64_enc(ct ? ct : "", ctl)) < 0)
+        ok = false;     /* the caller of the streaming API checks what it builds itself */
     res = json_pack("{s:b}", "ok", ok);
-    if (ok) {
-        json_object_set_new(jwe, "ciphertext", jose_b64_enc(ct ? ct : "", ctl));
+    if (ok)
         json_object_set(res, "jwe", jwe);
-    }
     jose_io_decref(io);
     jose_io_decref(o);
     json_decref(jwe);
